@@ -22,8 +22,11 @@ strengthened. %d changes, all caught by the current checks; %d of them were caug
 `tools/try_seeded.sh` (a scratch copy of /verif whose harness points at a scratch worktree with the patch applied, because
 other work needed /repo untouched at the time). Finally every change was applied to /repo itself (`git -C /repo apply`),
 the registered quick check of its property was run, and the change was undone (`tools/run_seeded_on_repo.sh`): all of them
-are reported as VIOLATION (log: `seeded-logs/run-on-repo-2026-10-01.log`; for 5 of them the first VIOLATION line printed carries
-`no-failing-input-found` — C19 source-scan hits and byte-level C20/C18 comparisons — followed by confirmed ones).
+are reported as VIOLATION (first 100: `seeded-logs/run-on-repo-2026-10-01.log`; after the sixth wave ALL 202 again, with the
+checks as they then stood: `seeded-logs/run-on-repo-2026-10-01b.log` — 201 reported on the first pass, 11 of them with
+`no-failing-input-found` on their first VIOLATION line; ONE early change, C05-dry-run-left-flip-order, was no longer reported:
+later generator changes had shifted the random stream away from the shape it needs — a family that produces that shape on
+purpose was added and the change is reported again, which is what re-running the whole collection is for).
 
 Lessons that changed the generators: operands must include (i) more than 65,536 nodes (needs the fast engine), (ii) more
 than 256 / 1024 variables and level gaps of exactly 63/64/65, (iii) same-shaped sub-diagrams on variables congruent
